@@ -2,6 +2,7 @@ T = 'circuits/core/timers.py'
 H = 'circuits/core/helpers.py'
 E = 'circuits/core/events.py'
 M = 'circuits/core/manager.py'
+P = 'circuits/core/pollers.py'
 MUTANTS = [
     ('c09-fires-early-tolerance', 'C09', T, "        if now >= self.expiry:", "        if now >= self.expiry - 0.05:"),
     ('c09-no-reduce-time-left', 'C09', T, "        else:\n            event.reduce_time_left(self.expiry - now)", "        else:\n            pass"),
@@ -17,4 +18,8 @@ MUTANTS = [
     ('c09-datetime-keeps-microseconds-late', 'C09', T, "            self.interval = mktime(interval.timetuple()) - time()", "            self.interval = mktime(interval.timetuple()) - time() - 1"),
     ('c09-tasks-timeout-overrides-timer', 'C09', M, "            if isinstance(event, generate_events) and self._tasks:\n                event.reduce_time_left(TIMEOUT)", "            if isinstance(event, generate_events) and self._tasks:\n                event._time_left = TIMEOUT"),
     ('c09-min-over-timers-broken', 'C09', E, "                self._time_left = time_left\n", "                self._time_left = time_left if self._time_left < 0 else max(self._time_left, time_left)\n"),
+    # the idle sleep of a poller in the tree (round 14)
+    ('c09-epoll-timeout-in-milliseconds', 'C09', P, "self._poller.poll() if timeout < 0 else self._poller.poll(timeout)", "self._poller.poll() if timeout < 0 else self._poller.poll(1000 * timeout)"),
+    ('c09-poll-timeout-padded', 'C09', P, "self._poller.poll(1000 * timeout)", "self._poller.poll(1000 * timeout + 50)"),
+    ('c09-select-timeout-doubled', 'C09', P, "select.select(self._read, self._write, [], timeout)", "select.select(self._read, self._write, [], 2 * timeout)"),
 ]
